@@ -199,6 +199,36 @@ def rule_conversion(rep, repo, tier):
               "value-not-representable-in-converted-type:" + cls,
               "%s emits %r, the operand type derived from it is %s" %
               (cfg, vs, txt), loc=loc, instance=cfg)
+  # sign soundness for the leaky ReLU: its negative side makes the type
+  # signed for every legal slope 2**-k (the grid of the leaky side is a C01
+  # known finding and is not compared here)
+  for b, i, slope in itertools.product((3, 4, 6), (0, 1, 2),
+                                       (F(1, 2), F(1, 4), F(1, 8), F(1))):
+    kw = dict(bits=b, integer=i, negative_slope=slope)
+    cfg = "quantized_relu(%s)" % ",".join("%s=%s" % kv for kv in kw.items())
+    try:
+      b_ = quant.build(repo, "quantized_relu", kw)
+    except ConfigRejected:
+      continue
+    lo_, _ = value_set(b_.fwd("infer")).bounds()
+    pe = b_.pe
+    pe.opaque_ext = True
+    fac = pe.call(pe.lookup_global("QuantizerFactory", qf), [], {})
+    try:
+      t = pe.call(pe.getattr(fac, "make_quantizer"), [b_.obj], {})
+    except (PyRaise, Unsupported) as e:
+      rep.fail("R9", unit_b, "conversion-raises", "%s: %s" % (cfg, e),
+               loc=loc, instance=cfg)
+      continue
+    if not isinstance(t, Obj):
+      continue
+    m += 1
+    rep.check(lo_ is None or lo_ >= 0 or bool(t.attrs.get("is_signed")),
+              "R9", unit_b, "negative-values-in-unsigned-type:quantized_relu",
+              "%s emits values down to %s, the operand type derived from it "
+              "is unsigned (is_signed=%r)" % (cfg, lo_,
+                                              t.attrs.get("is_signed")),
+              loc=loc, instance=cfg)
   if m < 30:
     raise AnalysisError("instance-count only %d conversions checked" % m)
   # (c) the way back: an operand type converted to a qkeras quantizer
